@@ -193,6 +193,19 @@ def prepare(yield_modules=(), dict_modules=None):
     inst_parse = load_instrumented(_real_parse.__file__, "wsx_urllib_parse")
     W.parser.parse = _ParseShim(inst_parse)
     W.parser.unquote_to_bytes = sym_unquote_to_bytes
+    from . import files
+    import types
+    tf = types.ModuleType("tempfile")
+    import tempfile as _rt
+    tf.__dict__.update({k: v for k, v in vars(_rt).items() if not k.startswith("__")})
+    tf.TemporaryFile = files.TemporaryFile
+    loader.IMPORT_SHIMS["tempfile"] = tf
+    W.buffers.BytesIO = files.BytesIO
+    W.parser.BytesIO = files.BytesIO
+    from .containers import enable_symdict_displays
+    enable_symdict_displays(True)
+    W._is_instrumented = True
+    P._is_instrumented = False
     _prepared["W"], _prepared["P"] = W, P
     return W, P
 
@@ -304,3 +317,31 @@ class SeqServer:
 
     def pull_trigger(self):
         self.triggers += 1
+
+
+def real_namespace():
+    """the pristine modules (plain `import waitress`), with the same logger / clock / traceback stubs"""
+    import importlib
+
+    class NS:
+        pass
+
+    R = NS()
+    for m in MODS:
+        setattr(R, m, importlib.import_module("waitress.%s" % m))
+    _stub_loggers(R.utilities)
+    for m in MODS:
+        mod = getattr(R, m)
+        for nm in ("logger", "queue_logger"):
+            if hasattr(mod, nm) and m != "utilities":
+                setattr(mod, nm, getattr(R.utilities, nm))
+        for cls in vars(mod).values():
+            if isinstance(cls, type) and "logger" in vars(cls):
+                cls.logger = R.utilities.logger
+            if isinstance(cls, type) and "queue_logger" in vars(cls):
+                cls.queue_logger = R.utilities.queue_logger
+    for m in ("channel", "task", "server"):
+        getattr(R, m).time = CLOCK
+    R.channel.traceback = FakeTraceback
+    R._is_instrumented = False
+    return R
